@@ -326,6 +326,17 @@ impl Engine for ConcEngine {
             knobs.insert("prefill".into(), 0);
             knobs.insert("recreate".into(), 1);
         }
+        // "pin window" family (own tape, C08/C16/C18): any reader is held between the check of
+        // the retired bit and the increment of the reader count of the extent pin word, long
+        // enough for the flusher to retire, mark and reuse the extent meanwhile
+        let mut pw = Tape::fresh(mix(seed, 0x9142));
+        let mut sim = sim;
+        if matches!(property, "C08" | "C16" | "C18") && persistent && pw.chance(1, 5) {
+            sim.strategy = Strategy::Starve(crate::sched::HOLD_ANY);
+            sim.hold_sites = vec!["pin.between_check_and_increment".to_string()];
+            sim.hold_steps = *pw.pick(&[15u64, 40, 120]);
+            knobs.insert("pin_window".into(), 1);
+        }
         // "expired rmw" family (own tape): a key arrives already expired while the sweeper runs,
         // and one client follows up with two automatic writes in the same clock tick - the
         // versions handed out around a retirement somebody else performed must still increase
